@@ -29,15 +29,15 @@ type c17Case struct {
 	FileNames    []string          `json:"file_names"`     // `name:` of each compose file ("" = none)
 	Var          string            `json:"var,omitempty"`  // variable whose value ends in label `val`
 	// expectations computed by the generator's reference
-	WantErr        bool   `json:"want_err"`
-	WantName       string `json:"want_name,omitempty"`
-	WantVal        string `json:"want_val,omitempty"`
-	HasVal         bool   `json:"has_val,omitempty"`
-	Why            string `json:"why,omitempty"`
-	Defined        bool   `json:"defined,omitempty"`                // the variable is set (possibly to the empty string) in some layer
-	NameInLaterDoc bool   `json:"name_in_later_document,omitempty"` // `name:` sits in a second `---` document of its file
-	RepeatFirst    bool   `json:"repeat_first_env_file,omitempty"`  // the .env files are given as [one, two, one]: the last mention counts
-	NoWorkDirOption bool `json:"no_working_directory_option,omitempty"` // the project directory is not given: it is the first compose file's; later files live elsewhere
+	WantErr         bool   `json:"want_err"`
+	WantName        string `json:"want_name,omitempty"`
+	WantVal         string `json:"want_val,omitempty"`
+	HasVal          bool   `json:"has_val,omitempty"`
+	Why             string `json:"why,omitempty"`
+	Defined         bool   `json:"defined,omitempty"`                     // the variable is set (possibly to the empty string) in some layer
+	NameInLaterDoc  bool   `json:"name_in_later_document,omitempty"`      // `name:` sits in a second `---` document of its file
+	RepeatFirst     bool   `json:"repeat_first_env_file,omitempty"`       // the .env files are given as [one, two, one]: the last mention counts
+	NoWorkDirOption bool   `json:"no_working_directory_option,omitempty"` // the project directory is not given: it is the first compose file's; later files live elsewhere
 }
 
 var nameRe = regexp.MustCompile(`^[a-z0-9][a-z0-9_-]*$`)
